@@ -109,14 +109,31 @@ ROUND6_FIX = {
  "C17k": "no source repeated a chunk three times -> sources 0 1 0 1 0, 0 0 1 0 0, 0 1 0 0 1 0 1",
  "C17l": "every archive of C17 recorded a minimum chunk size >= the window size -> the slack-7 slice records minimum 1 (the reader's chunker configuration is compared with the independent decoder's for every archive)",
 }
+ROUND7_FIX = {
+ "C01n": "C01 judged only its own compress-then-clone cells of the CLI grid -> every clone cell of the grid (its archives are written by the binary's own compress) is judged as a round trip",
+ "C02m": "no source of the CLI legs held an all-zero chunk -> both grid sources hold one (a 'sparse output' shortcut leaves stale bytes under -f / --seed-output / on a device)",
+ "C02n": "C02 left the output-as-its-own-seed to C03 -> the L0 pairs (<= 4 chunks of sizes 1-3, real planner and executor) are also a leg of C02, judged by the final bytes",
+ "C04m": "base archives used 8-, 16- and 64-byte hashes -> a 4-byte base (quick), 5- and 7-byte bases (thorough)",
+ "C07m": "C07 ran without transfer failures -> every run of every 8th subset cut after 1 byte / half its bytes under a retry budget of 1: the follow-up request keeps the run's last byte",
+ "C08m": "every case used a fresh reader -> a second call on the SAME reader (ranges in reverse order) after every HTTP case and, for the local reader, every pair of APIs under every single deviation",
+ "C09n": "the differential leg passed --seed-output alone -> also next to -f / --verify-output / --buffered-chunks",
+ "C10n": "streams of C10 were at most 70 kB -> a family with chunks of 0.3-2 MiB on a 5 MB suffix, the second stream delivered whole or in 64 KiB reads",
+ "C12n": "one writer at a time -> two library writers joined in one task as a subject of the schedule explorer (each archive must equal the one written alone)",
+ "C14m": "the stale temp file only occurred with an absent output -> compress state 'archive exists AND a stale temp file of a sibling run is there' (refusal cell)",
+ "C15m": "Content-Length lies were small -> declared lengths of 2^40 / 2^62; the server leg now runs in isolated workers (address-space limit, watchdog) like the header legs",
+ "C15n": "no archive of the corruption leg had chunk hashes shorter than 8 bytes -> the 4-byte base of C04 is part of it (the error of a failed verification is formatted, as the CLI does)",
+ "C17n": "no archive of C17 described a source beyond 4 GiB -> a 3 MiB archive of three stored chunks describing 4 100 MiB + 12 345 bytes (a chunk ends exactly at offset 2^32), local and HTTP, comparing sink",
+}
 # written by the agents, confirmed to change behaviour, but judged NOT to break the property as stated: not kept
 REJECTED = {
  "C13d": "--force-create truncates the prior output before it is scanned: the scan then finds nothing in place, so the statement (about locations the scan found) holds vacuously; the author's own notes say so",
+ "C09m": "the library writer's de-duplication table keyed by the truncated checksum (the same change as C12i): the chunker's stream - what C09 speaks about - is untouched; with 1-3 byte hashes two different chunks sharing a truncated hash make an archive ambiguous for every reader anyway (assumption A1). Reported by C12 (archive-differs-between-deliveries), as C12i is",
+ "C10m": "the chunker configuration read back from an archive forgets the maximum chunk size: each stream still resynchronises under the configuration it is chunked with - C10's statement holds - what breaks is that compress and clone use different configurations, which C11 (reader-reports-different-values), C17 and C09's compress-vs-clone differential leg report; a bound-based C10 leg that would flag it (average == maximum chunk size) raised an alarm on the unchanged tree, where such streams legitimately do not resynchronise, and was dropped before it was committed",
  "C14c": "an archive without a compression sub-message is accepted and cloned correctly instead of being refused: the change moves the line between valid and invalid archives (proto3 reads a missing sub-message as defaults), it does not touch an output on a refusal",
 }
 rows = []
 for pid in [f"C{i:02d}" for i in range(1, 18)]:
-    for v in "abcdefghijkl":
+    for v in "abcdefghijklmn":
         d = f"/root/work/seed/{pid}"
         if not os.path.exists(f"{d}/{v}.eval.json"):
             continue
@@ -132,16 +149,17 @@ for pid in [f"C{i:02d}" for i in range(1, 18)]:
         key = f"{pid}{v}"
         fpj = f"{d}/{v}.trial.quick.firstpass.json"
         missed = key in FIRST_PASS_MISSED
-        if v in "cdefghijkl" and os.path.exists(fpj):
+        if v in "cdefghijklmn" and os.path.exists(fpj):
             fp = json.load(open(fpj))
             missed = fp.get(pid, {}).get("rc") != 1
             meta["first_pass_checks_commit"] = ("49a2c6c (the checks as they stood before the second round of seeded changes)" if v in "cd"
                                                 else "bcaeac9 (the checks as they stood before the third round of seeded changes)" if v in "ef"
                                                 else "f656d4f (the checks as they stood before the fourth round of seeded changes)" if v in "gh"
                                                 else "c549579 (the checks as they stood before the fifth round of seeded changes)" if v in "ij"
-                                                else "b4f1cb5 (the checks as they stood before the sixth round of seeded changes)")
+                                                else "b4f1cb5 (the checks as they stood before the sixth round of seeded changes)" if v in "kl"
+                                                else "de9091c (the checks as they stood before the seventh round of seeded changes)")
         if missed:
-            meta["first_pass"] = "missed by the target property's check; strengthened: " + FIRST_PASS_MISSED.get(key, ROUND2_FIX.get(key, ROUND3_FIX.get(key, ROUND4_FIX.get(key, ROUND5_FIX.get(key, ROUND6_FIX.get(key, "see DESIGN.md section 9"))))))
+            meta["first_pass"] = "missed by the target property's check; strengthened: " + FIRST_PASS_MISSED.get(key, ROUND2_FIX.get(key, ROUND3_FIX.get(key, ROUND4_FIX.get(key, ROUND5_FIX.get(key, ROUND6_FIX.get(key, ROUND7_FIX.get(key, "see DESIGN.md section 9")))))))
         else:
             meta["first_pass"] = "caught by the target property's check as it stood when the change was written"
         json.dump(meta, open(meta_p, "w"), indent=1)
